@@ -119,11 +119,12 @@ struct RawQuery {
     kraw: u16,
     rmode: u8,
     rraw: u16,
+    strided: bool,
 }
 
 fn raw_query(dim: usize) -> impl Strategy<Value = RawQuery> {
-    (0u8..12, any::<u16>(), any::<u16>(), vec(any::<i16>(), dim), 0u8..10, any::<u16>(), 0u8..15, any::<u16>())
-        .prop_map(|(kind, a, b, coords, kmode, kraw, rmode, rraw)| RawQuery { kind, a, b, coords, kmode, kraw, rmode, rraw })
+    (0u8..12, any::<u16>(), any::<u16>(), vec(any::<i16>(), dim), 0u8..10, any::<u16>(), 0u8..15, any::<u16>(), prop::bool::weighted(0.15))
+        .prop_map(|(kind, a, b, coords, kmode, kraw, rmode, rraw, strided)| RawQuery { kind, a, b, coords, kmode, kraw, rmode, rraw, strided })
 }
 
 fn build_query(rq: &RawQuery, points: &[Vec<f64>], dim: usize, l: i32, wrong_len: Option<usize>) -> Query {
@@ -172,7 +173,7 @@ fn build_query(rq: &RawQuery, points: &[Vec<f64>], dim: usize, l: i32, wrong_len
         12 => Radius::ToPointUlps(rq.rraw, (rq.b % 7) as i8 - 3),
         _ => Radius::ToRankUlps((rq.rraw % 8) as u16, (rq.b % 7) as i8 - 3),
     };
-    Query { point, class, k, radius }
+    Query { point, class, k, radius, strided: rq.strided }
 }
 
 #[derive(Debug, Clone, Copy, PartialEq)]
@@ -181,6 +182,26 @@ pub enum Malformed {
     Rare,
     /// every case carries at least one malformation
     Always,
+}
+
+pub fn layout_strategy() -> impl Strategy<Value = Layout> {
+    prop_oneof![
+        6 => Just(Layout::RowMajor),
+        1 => Just(Layout::ColMajorOwned),
+        1 => Just(Layout::TransposedView),
+        1 => Just(Layout::StridedRows),
+        1 => Just(Layout::ReversedRows),
+    ]
+}
+
+pub fn entry_strategy() -> impl Strategy<Value = Entry> {
+    prop_oneof![
+        3 => Just(Entry::Enum),
+        2 => Just(Entry::Struct),
+        2 => Just(Entry::Direct),
+        1 => Just(Entry::EnumDefaultLeaf),
+        1 => Just(Entry::StructDefaultLeaf),
+    ]
 }
 
 fn leaf_strategy() -> impl Strategy<Value = (u8, u16)> {
@@ -204,13 +225,13 @@ fn malformation(mode: Malformed) -> BoxedStrategy<(u8, u8)> {
 pub fn case_strategy(nmax: usize, mode: Malformed) -> impl Strategy<Value = Case> {
     dim_strategy().prop_flat_map(move |dim| {
         (
-            (any::<bool>(), metric_strategy(), class_strategy(), 1i32..=4, 1usize..=4),
+            (any::<bool>(), metric_strategy(), class_strategy(), 1i32..=4, 1usize..=4, layout_strategy(), entry_strategy()),
             vec(vec(any::<i16>(), dim), 0..=nmax),
             vec(raw_query(dim), 1..=3),
             leaf_strategy(),
             malformation(mode),
         )
-            .prop_map(move |((single, metric, class, l, m), raw, rqs, (lmode, lraw), (mal, malarg))| {
+            .prop_map(move |((single, metric, class, l, m, layout, entry), raw, rqs, (lmode, lraw), (mal, malarg))| {
                 let n = raw.len();
                 let mut dim_eff = dim;
                 let mut points = build_points(class, &raw, l, m);
@@ -250,7 +271,7 @@ pub fn case_strategy(nmax: usize, mode: Malformed) -> impl Strategy<Value = Case
                         q
                     })
                     .collect();
-                Case { single, metric, class, dim: dim_eff, points, leaf, queries }
+                Case { single, metric, class, dim: dim_eff, points, leaf, queries, layout, entry }
             })
     })
 }
@@ -318,6 +339,7 @@ pub fn small_exhaustive(thorough: bool) -> Vec<Case> {
                             class: if step % 2 == 0 { QueryClass::Lattice } else { QueryClass::CellCentre },
                             k,
                             radius: radii(counter),
+                            strided: counter % 3 == 0,
                         });
                     }
                 }
@@ -329,6 +351,9 @@ pub fn small_exhaustive(thorough: bool) -> Vec<Case> {
                     points: pts.clone(),
                     leaf,
                     queries,
+                    // every (layout, entry point) pair over 25 consecutive cases
+                    layout: ALL_LAYOUTS[out.len() % 5],
+                    entry: ALL_ENTRIES[(out.len() / 5) % 5],
                 });
             }
         }
@@ -360,6 +385,7 @@ pub fn small_exhaustive(thorough: bool) -> Vec<Case> {
                             class: if gx % 2 == 0 && gy % 2 == 0 { QueryClass::Lattice } else { QueryClass::CellCentre },
                             k: counter % (n + 2),
                             radius: radii(counter / 3),
+                            strided: counter % 4 == 1,
                         });
                     }
                 }
@@ -371,6 +397,9 @@ pub fn small_exhaustive(thorough: bool) -> Vec<Case> {
                     points: pts.clone(),
                     leaf,
                     queries,
+                    // every (layout, entry point) pair over 25 consecutive cases
+                    layout: ALL_LAYOUTS[out.len() % 5],
+                    entry: ALL_ENTRIES[(out.len() / 5) % 5],
                 });
             }
         }
@@ -428,8 +457,9 @@ pub fn adjacent_strategy() -> impl Strategy<Value = Case> {
             vec(vec(offset(), dim), 0..=14),
             vec((0u8..8, any::<u16>(), any::<u16>(), vec(offset(), dim), any::<u16>(), 0u8..10, any::<u16>()), 1..=3),
             1usize..=4,
+            (layout_strategy(), entry_strategy()),
         )
-            .prop_map(move |(metric, bases, offs, rqs, leaf)| {
+            .prop_map(move |(metric, bases, offs, rqs, leaf, (layout, entry))| {
                 let point = |o: &Vec<u32>| -> Vec<f64> {
                     (0..dim).map(|j| ulps(BASES[bases.get(j).copied().unwrap_or(0) % BASES.len()], o.get(j).copied().unwrap_or(0), single)).collect()
                 };
@@ -459,10 +489,10 @@ pub fn adjacent_strategy() -> impl Strategy<Value = Case> {
                             8 => Radius::Beyond,
                             _ => Radius::Abs(1.0),
                         };
-                        Query { point: p, class, k: idx(*kraw, n + 3), radius }
+                        Query { point: p, class, k: idx(*kraw, n + 3), radius, strided: *a % 5 == 0 }
                     })
                     .collect();
-                Case { single, metric, class: PointClass::AdjacentFloats, dim, points, leaf, queries }
+                Case { single, metric, class: PointClass::AdjacentFloats, dim, points, leaf, queries, layout, entry }
             })
     })
 }
@@ -555,9 +585,11 @@ pub fn expand_large(lc: &LargeCase) -> Case {
         let ulps = [0i8, 1, 1, 2, 3, -1, -2, 0][rng.below(8)];
         let k = (rank + rng.below(3)).saturating_sub(1);
         let radius = if qi % 8 == 7 { Radius::ToPoint(rng.below(65536) as u16) } else { Radius::ToRankUlps(rank as u16, ulps) };
-        queries.push(Query { point: points[i].clone(), class: QueryClass::Stored, k, radius });
+        queries.push(Query { point: points[i].clone(), class: QueryClass::Stored, k, radius, strided: qi % 16 == 5 });
     }
-    Case { single: lc.single, metric: lc.metric, class: PointClass::LargeStructured, dim, points, leaf: lc.leaf.max(1), queries }
+    let layout = ALL_LAYOUTS[(lc.seed % 7) as usize % ALL_LAYOUTS.len()];
+    let entry = ALL_ENTRIES[((lc.seed >> 8) % 5) as usize];
+    Case { single: lc.single, metric: lc.metric, class: PointClass::LargeStructured, dim, points, leaf: lc.leaf.max(1), queries, layout, entry }
 }
 
 pub fn large_strategy(nq: usize) -> impl Strategy<Value = LargeCase> {
